@@ -50,6 +50,18 @@ def run(ctx):
                       "the %s is registered with PollOpt::%s, but its handler reads a bounded number of items per event: whatever is still queued after one "
                       "batch raises no further event, so later valid requests are not answered" % (what, "|".join(r["opts"]) or values.fmt(r["opts_term"])), r["fn"].loc(r["bb"]))
     ctx.floor("wake-up", nreg, 2, "poll registrations of the request socket and the health-check listener")
+    # the other way to wedge: a loop of the serving path whose exit depends on the socket, a queue or nothing at all (retry until it works, read
+    # until empty).  C19 classifies every loop reachable from the thread entries; its verdicts for the loops below process_events are obligations here.
+    import importlib
+    from framework import Ctx
+    c19 = importlib.import_module("rules.C19")
+    sub19 = Ctx("C19", ctx.prog, ctx.repo, "quick", ctx.feature)
+    c19.run(sub19)
+    mine = [i for i in sub19.instances if i["rule"] == "flag-in-loop" and any(i["key"].startswith("C19/flag-in-loop/" + f + "/") for f in eng.reach)]
+    bad19 = [i for i in mine if not i["ok"]]
+    ctx.check("wake-up", "every-loop-of-the-serving-path-is-bounded(C19)", not bad19, "every loop below process_events is a bounded iteration or an audited one (%d loops)" % len(mine),
+              "a loop of the serving path can keep the worker from returning to poll(): " + (bad19[0]["detail"] if bad19 else ""), bad19[0].get("loc") if bad19 else None)
+    ctx.floor("wake-up-loops", len(mine), 12, "loops below process_events classified by C19")
     # log macro argument blocks are part of the analysed MIR: count sites inside log expansions
     nlog = 0
     for r in recs:
